@@ -318,3 +318,55 @@ fn test_object_with_failing_display_does_not_hide_a_failing_writer() {
     // nothing was written after the failure
     assert_eq!((sink.0, sink.1.as_slice()), (2, &b"a"[..]));
 }
+
+#[test]
+fn test_dropped_write_error_still_fails_the_render() {
+    use minijinja::value::Object;
+    use std::error::Error as _;
+    use std::sync::Arc;
+    use std::{fmt, io};
+
+    /// keeps writing after a failed write and reports success
+    #[derive(Debug)]
+    struct Careless;
+
+    impl Object for Careless {
+        fn render(self: &Arc<Self>, f: &mut fmt::Formatter<'_>) -> fmt::Result {
+            let _ = f.write_str("<one>");
+            let _ = f.write_str("<two>");
+            let _ = f.write_str("<three>");
+            Ok(())
+        }
+    }
+
+    /// fails at the third write call only
+    struct Sink(usize, Vec<u8>);
+
+    impl io::Write for Sink {
+        fn write(&mut self, buf: &[u8]) -> io::Result<usize> {
+            self.0 += 1;
+            if self.0 == 3 {
+                return Err(io::Error::new(io::ErrorKind::WouldBlock, "try later"));
+            }
+            self.1.extend_from_slice(buf);
+            Ok(buf.len())
+        }
+
+        fn flush(&mut self) -> io::Result<()> {
+            Ok(())
+        }
+    }
+
+    let env = Environment::new();
+    let tmpl = env.template_from_str("a{{ obj }}b{{ 42 }}c").unwrap();
+    let mut sink = Sink(0, Vec::new());
+    let err = tmpl
+        .render_captured_to(context! { obj => Value::from_object(Careless) }, &mut sink)
+        .map(|_| ())
+        .unwrap_err();
+    assert_eq!(err.kind(), minijinja::ErrorKind::WriteFailure);
+    let io_err = err.source().unwrap().downcast_ref::<io::Error>().unwrap();
+    assert_eq!(io_err.kind(), io::ErrorKind::WouldBlock);
+    // the writer was not called again after it failed
+    assert_eq!((sink.0, sink.1.as_slice()), (3, &b"a<one>"[..]));
+}
